@@ -7,7 +7,7 @@ func init() {
 		ID: "C06",
 		Explanation: "Lockup: decides that coin movements into/out of the lockup module account, the lock record, the reference indexes and the accumulation store are updated together with the same keys and amounts; " +
 			"that the unlock end time is block time + duration; that matured-unlock is guarded by the unlocking flag and the end-time comparison against block time and pays the lock owner; that owner guards precede every mutation.",
-		NotCovered: []string{"index = primary records for every query shape over histories", "sum-tree internals (C16)", "conservation of owner balance + locked as a number"},
+		NotCovered:  []string{"index = primary records for every query shape over histories", "sum-tree internals (C16)", "conservation of owner balance + locked as a number"},
 		Assumptions: []string{"bank keeper and KV store are the effect primitives", "an error exit of a message reverts its store branch (SDK)"},
 		MinObl:      45,
 		Run:         runC06,
